@@ -17,6 +17,7 @@ import (
 	"perkeep.org/pkg/blob"
 	"perkeep.org/pkg/jsonsign"
 	"perkeep.org/pkg/schema"
+	"perkeep.org/pkg/sorted"
 )
 
 // ---- abstract world: blob i needs (must fetch) the blobs deps[i] while being indexed ----
@@ -501,4 +502,49 @@ func VK06cDeleteBeforeTarget() {
 	vrt.Assert(ix.IsDeleted(target), "the index's own deletion cache knows the deletion")
 	vrt.Assert(loaded.IsDeleted(target), "a corpus loaded from the rows knows the deletion")
 	vrt.Assert(ix.corpus.IsDeleted(target) == loaded.IsDeleted(target), "the live corpus agrees with a corpus loaded from the same rows about a deletion")
+}
+
+// K06d (C06): an attribute claim whose index rows exceed the sorted-KV size limits. The rows are
+// produced by the real populateClaim, written through the real commit into the real in-memory
+// sorted store (which skips oversized rows: sorted.CheckSizes) and merged into the live corpus by
+// the real Corpus.addBlob; the attribute must read the same live and in a corpus loaded from the
+// stored rows.
+func VK06dOversizedRow() {
+	kv := sorted.NewMemoryKeyValue()
+	ix, err := New(kv)
+	vrt.Assert(err == nil, "index.New succeeds")
+	ix.corpus = newCorpus()
+	ctx := context.Background()
+	pn, c1 := blob.VerifSmallRef(1), blob.VerifSmallRef(11)
+	signer := blob.VerifSmallRef(200)
+	vr := &jsonsign.VerifyRequest{SignerKeyId: "KEY1", CamliSigner: signer}
+	n := []int{3, sorted.MaxValueSize - 300, sorted.MaxValueSize + 10}[vrt.Choice(3)]
+	val := make([]byte, n)
+	for i := range val {
+		val[i] = 'x'
+	}
+	when := time.Unix(1010, 0)
+	b := schema.VerifNewBlob(c1, schema.VerifBlobDesc{Type: "claim", ClaimType: "set-attribute", Permanode: pn, Attribute: "title", Value: string(val), Signed: true, ClaimDate: when})
+	deliver := func(br blob.Ref, mm *mutationMap) {
+		vrt.Assert(ix.commit(mm) == nil, "commit succeeds")
+		vrt.Assert(ix.corpus.addBlob(ctx, br, mm) == nil, "the corpus accepts the blob")
+	}
+	deliver(pn, &mutationMap{kv: map[string]string{
+		"meta:" + pn.String(): "100|application/json; camliType=permanode",
+		"have:" + pn.String(): "100|indexed"}})
+	mm := &mutationMap{kv: map[string]string{
+		"meta:" + c1.String(): "100|application/json; camliType=claim",
+		"have:" + c1.String(): "100|indexed"}}
+	perr := ix.populateClaim(ctx, nil, b, vr, mm)
+	vrt.Assert(perr == nil, "populateClaim of an attribute claim succeeds")
+	deliver(c1, mm)
+	at := time.Unix(2000, 0)
+	live := ix.corpus.PermanodeAttrValue(pn, "title", at, "")
+	c2, err := NewCorpusFromStorage(kv)
+	vrt.Assert(err == nil, "corpus loads from the stored rows")
+	loaded := c2.PermanodeAttrValue(pn, "title", at, "")
+	if n > sorted.MaxValueSize {
+		vrt.Cover("oversized")
+	}
+	vrt.Assert(len(live) == len(loaded), "an attribute reads the same live and in a corpus loaded from the stored rows, whatever the size of its value")
 }
